@@ -1,6 +1,7 @@
 import NasVerif.Gen.Accessors
 import NasVerif.Gen.Unrecognised
 import NasVerif.Spec.AccessorLayout
+import NasVerif.Proofs.DnnLemmas
 /-!
 # C09 — each IE field accessor reads and writes exactly its documented bits
 
@@ -87,5 +88,55 @@ example : (pairs.filter (fun p => p.type == "GUTI5G" && p.field == "AMFSetID")).
     [(⟨5, 6, 8, 10⟩, true)] := by decide
 set_option maxRecDepth 100000 in
 example : pairs.length = 539 ∧ ranges.length = 53 := by decide
+
+/-! ## the one text-valued accessor pair: `DNN.SetDNN` / `DNN.GetDNN` (hand model `Model/Convert.lean`, tied by the
+correspondence run: op `accs DNN`) -/
+section dnn
+open NasVerif NasVerif.Model.Convert NasVerif.Proofs.Dnn
+
+/-- **DNN: set-then-get returns the value.** For every text the setter accepts (every label at most 62 octets, the coded form
+at most 100 octets), `GetDNN` on the buffer `SetDNN` stored returns exactly that text — empty labels (leading, trailing,
+repeated dots) included. -/
+theorem dnn_set_then_get (s b : Bytes) (h : fqdnToRfc1035 s = .ok b) : getDNN b = .ok s := by
+  unfold fqdnToRfc1035 at h
+  simp only at h
+  split at h
+  · cases h
+  · next hany =>
+    split at h
+    · cases h
+    · simp only [pure, Outcome.ok.injEq] at h
+      subst h
+      have hseg : ∀ g ∈ splitDot s [], g.length ≤ 62 := by
+        intro g hg
+        have h2 : ∀ x ∈ splitDot s [], x.length ≤ 62 := by simpa using hany
+        exact h2 g hg
+      have hfl : (splitDot s []).length ≤ ((splitDot s []).flatMap fun g => UInt8.ofNat g.length :: g).length := by
+        generalize splitDot s [] = l
+        induction l with
+        | nil => simp
+        | cons a r ih => simp only [List.flatMap_cons, List.length_cons, List.length_append]; omega
+      unfold getDNN
+      rw [dnnLoop_labels _ hseg _ (by omega) []]
+      simp only [bind, Outcome.bind, List.nil_append, splitDot_flat]
+      have hne : ¬ (s ++ [dot] = []) := by simp
+      rw [if_neg hne]
+      unfold chop1
+      rw [if_neg (by simp)]
+      simp [slice]
+
+/-- a text with an over-long label, or whose coded form exceeds 100 octets, leaves the element as it was -/
+theorem dnn_set_invalid (old s : Bytes) (e) (h : fqdnToRfc1035 s = .err e) : setDNN old s = old := by
+  simp [setDNN, h]
+
+theorem dnn_set_valid (old s b : Bytes) (h : fqdnToRfc1035 s = .ok b) : setDNN old s = b ∧ getDNN (setDNN old s) = .ok s := by
+  simp [setDNN, h, dnn_set_then_get s b h]
+
+example : fqdnToRfc1035 (ascii ".local") = .ok [0, 5, 108, 111, 99, 97, 108] := by decide
+example : getDNN [0, 5, 108, 111, 99, 97, 108] = .ok (ascii ".local") := by decide
+example : fqdnToRfc1035 (ascii "") = .ok [0] ∧ getDNN [0] = .ok [] := by decide
+example : fqdnToRfc1035 (ascii "a..b.") = .ok [1, 97, 0, 1, 98, 0] ∧ getDNN [1, 97, 0, 1, 98, 0] = .ok (ascii "a..b.") := by decide
+
+end dnn
 
 end NasVerif.Props.C09
